@@ -1,7 +1,7 @@
 """C07 registry: resilience wrappers (CircuitBreaker, Bulkhead, Fallback, Hedge, TimeoutWrapper)."""
 from __future__ import annotations
 
-from props.c07_core import Backend, Drv, Entity, Event, Instant
+from props.c07_core import Backend, Drv, Entity, Event, Instant, P, R
 
 from happysimulator.components.resilience import Bulkhead, CircuitBreaker, Fallback, Hedge, TimeoutWrapper
 
@@ -37,7 +37,7 @@ class CircuitBreakerDrv(Drv):
     def build(self, cfg):
         self.t = _Target("target", cfg.L, self.h.out)
         self.changes = []
-        self.cb = CircuitBreaker("cb", target=self.t, failure_threshold=1, success_threshold=1, timeout=1.0,
+        self.cb = CircuitBreaker("cb", target=self.t, failure_threshold=1, success_threshold=1, timeout=P(1.0),
                                  half_open_max_requests=1,
                                  failure_predicate=lambda e: bool(e.context.get("metadata", {}).get("bad")),
                                  on_state_change=lambda a, b: self.changes.append((a, b)))
@@ -60,7 +60,7 @@ class BulkheadDrv(Drv):
 
     def build(self, cfg):
         self.t = _Target("target", cfg.L, self.h.out)
-        self.bh = Bulkhead("bh", target=self.t, max_concurrent=1, max_wait_queue=1, max_wait_time=0.75)
+        self.bh = Bulkhead("bh", target=self.t, max_concurrent=1, max_wait_queue=1, max_wait_time=P(0.75))
         return [self.t, self.bh]
 
     def request(self, i, op):
@@ -76,7 +76,7 @@ class FallbackEntityDrv(Drv):
     def build(self, cfg):
         self.p = _Target("primary", cfg.L, self.h.out)
         self.f = Backend("fallback-backend", cfg.L, self.h.out)
-        self.fb = Fallback("fb", primary=self.p, fallback=self.f, timeout=2 * cfg.L + 0.75,
+        self.fb = Fallback("fb", primary=self.p, fallback=self.f, timeout=2 * cfg.L + P(0.75),
                            failure_predicate=lambda e: bool(e.context.get("metadata", {}).get("bad")))
         return [self.p, self.f, self.fb]
 
@@ -94,7 +94,7 @@ class FallbackCallableDrv(Drv):
         self.p = _Target("primary", cfg.L, self.h.out)
         self.fb = Fallback("fb", primary=self.p,
                            fallback=lambda e: Event(time=self.fb.now, event_type="default", target=self.h.out),
-                           timeout=2 * cfg.L + 0.75)
+                           timeout=2 * cfg.L + P(0.75))
         return [self.p, self.fb]
 
     def request(self, i, op):
@@ -109,7 +109,7 @@ class HedgeDrv(Drv):
 
     def build(self, cfg):
         self.t = _Target("target", cfg.L, self.h.out)
-        self.hg = Hedge("hedge", target=self.t, hedge_delay=cfg.L / 2 + 0.25, max_hedges=2)
+        self.hg = Hedge("hedge", target=self.t, hedge_delay=cfg.L / 2 + P(0.25), max_hedges=2)
         return [self.t, self.hg]
 
     def request(self, i, op):
@@ -127,7 +127,7 @@ class HedgeZeroDelayDrv(Drv):
         try:
             self.hg = Hedge("hedge", target=self.t, hedge_delay=0.0, max_hedges=1)
         except ValueError:
-            self.hg = Hedge("hedge", target=self.t, hedge_delay=0.25, max_hedges=1)
+            self.hg = Hedge("hedge", target=self.t, hedge_delay=P(0.25), max_hedges=1)
         return [self.t, self.hg]
 
     def request(self, i, op):
@@ -142,7 +142,7 @@ class TimeoutWrapperDrv(Drv):
 
     def build(self, cfg):
         self.t = _Target("target", cfg.L, self.h.out)
-        self.tw = TimeoutWrapper("tw", target=self.t, timeout=2 * cfg.L + 0.75,
+        self.tw = TimeoutWrapper("tw", target=self.t, timeout=2 * cfg.L + P(0.75),
                                  on_timeout=lambda e: Event(time=self.tw.now, event_type="timed_out",
                                                             target=self.h.out))
         return [self.t, self.tw]
